@@ -549,4 +549,545 @@ theorem expandEdge_nonrec_pruned (hyp : PruneHyp ir args D) (comp : Component)
           (hyp.nnEdge comp hc e he toV htv y n hy) hxa ho
 end stages
 
+
+
+/-- Two homomorphic stages compared context by context. -/
+theorem Hom.pointwise_ok {α β : Type} {S S' : List α → R (List β)} (hS : Hom S) (hS' : Hom S')
+    (l : List α) (out : List β) (h : S l = .ok out)
+    (hp : ∀ x ∈ l, ∀ o, S [x] = .ok o → S' [x] = .ok o) (hnil : ∀ o, S [] = .ok o → S' [] = .ok o) :
+    S' l = .ok out := by
+  induction l generalizing out with
+  | nil => exact hnil out h
+  | cons x xs ih =>
+    obtain ⟨a, b, ha, hb, hab⟩ := hS.split_ok (xs := [x]) (ys := xs) (by simpa using h)
+    have h1 := hp x (by simp) a ha
+    have h2 := ih b hb (fun y hy => hp y (by simp [hy]))
+    have := hS'.join_ok h1 h2
+    simpa [hab] using this
+
+theorem map_split_filter (ir : IRQuery) (args : List (Name × Value)) (D : Data) (i : VInfo) (c : Ctx)
+    (ns : List VertexId) :
+    (ns.map fun n => c.splitTo (some n)).filter (keepCtx ir args D i) =
+      (ns.filter (keepB ir args D i)).map fun n => c.splitTo (some n) := by
+  induction ns with
+  | nil => rfl
+  | cons n ns ih =>
+    simp only [List.map_cons, List.filter_cons, ih]
+    have : keepCtx ir args D i (c.splitTo (some n)) = keepB ir args D i n := rfl
+    rw [this]
+    cases keepB ir args D i n <;> rfl
+
+theorem unpackList_map_leaf (f : VertexId → Ctx) (l : List VertexId) :
+    unpackList (l.map fun m => PCtx.mk (f m) []) = l.map f := by
+  induction l with
+  | nil => rfl
+  | cons m ms ih => simp [unpackList, unpack, ih]
+
+theorem mapR_ensureUnsuspended_active (l : List Ctx) (h : ∀ c ∈ l, c.active.isSome = true) :
+    mapR Ctx.ensureUnsuspended l = .ok l := by
+  induction l with
+  | nil => rfl
+  | cons c cs ih =>
+    have hc := h c (by simp)
+    have : c.ensureUnsuspended = .ok c := by
+      unfold Ctx.ensureUnsuspended
+      cases hca : c.active with
+      | none => simp [hca] at hc
+      | some v => rfl
+    simp [mapR, this, ih (fun d hd => h d (by simp [hd]))]
+
+/-- One recursion level from one context with an active vertex: the context itself (depth 0), then
+one context per neighbour. -/
+theorem recStep (c : Ctx) (v : VertexId) (hc : c.active = some v) (ns : List VertexId) :
+    mapR Ctx.ensureUnsuspended (unpackList (recExpandOne ns (.mk c []))) =
+      .ok (c :: ns.map fun m => c.splitTo (some m)) := by
+  cases ns with
+  | nil =>
+    simp only [recExpandOne, unpackList, unpack, List.append_nil, List.nil_append, List.map_nil]
+    exact mapR_ensureUnsuspended_active [c] (by simp [hc])
+  | cons n rest =>
+    have hsusp : c.ensureSuspended.ensureUnsuspended = .ok c := by
+      simp only [Ctx.ensureSuspended, hc, Ctx.ensureUnsuspended]
+      cases c; simp_all
+    have hrest : unpackList (rest.map fun m => PCtx.mk ((c.splitTo none).splitTo (some m)) []) =
+        rest.map fun m => c.splitTo (some m) := unpackList_map_leaf _ rest
+    simp only [recExpandOne, unpackList, unpack, List.append_nil, List.nil_append, hrest,
+      List.cons_append, List.map_cons, mapR, hsusp]
+    have h2 : (c.splitTo (some n)).ensureUnsuspended = .ok (c.splitTo (some n)) := rfl
+    simp only [h2]
+    rw [mapR_ensureUnsuspended_active _ (by intro d hd; simp only [List.mem_map] at hd; obtain ⟨m, _, rfl⟩ := hd; rfl)]
+
+theorem ofData_nbrs (D : Data) (args : List (Name × Value)) (eid : Eid) (t edge : Name) (ps : Params)
+    (v : Option VertexId) : (Env.ofData D args).adapter.nbrs eid t edge ps v = .ok (D.nbrsOpt v edge ps) := rfl
+
+section recursive
+variable {ir : IRQuery} {args : List (Name × Value)} {D : Data}
+
+theorem recFinish_single (env : Env) (e : IREdge) (r : Recursive) (fromV toV : IRVertex) (c : Ctx)
+    (hdepth : r.depth - 1 = 0) :
+    recFinish env e r fromV toV [c] =
+      (env.adapter.nbrs e.eid fromV.typeName e.name e.params c.active).bind fun ns =>
+        mapR Ctx.ensureUnsuspended (unpackList (recExpandOne ns (.mk c []))) := by
+  simp only [recFinish, hdepth, recLevels, List.map_cons, List.map_nil, recExpandLevel, flatMapR,
+    R.monad_bind, R.monad_pure]
+  cases env.adapter.nbrs e.eid fromV.typeName e.name e.params c.active with
+  | ok ns => simp
+  | panic s => rfl
+  | fuel => rfl
+
+/-- The edge stage of a *binding* recursive edge (`@recurse(depth: 1)`): pruning the neighbours
+removes contexts that the entry into the destination vertex would remove anyway; the depth-0
+context (the source vertex itself) is untouched. -/
+theorem expandEdge_rec_pruned (hyp : PruneHyp ir args D) (comp : Component)
+    (hc : comp ∈ subComps ir.rootComponent) (e : IREdge) (he : e ∈ comp.edges)
+    (r : Recursive) (hrec : e.recursive = some r) (hdepth : r.depth - 1 = 0)
+    (ctxs out : List Ctx)
+    (h : expandEdge (Env.ofData D args) comp e ctxs = .ok out) :
+    expandEdge (envS ir args D) comp e ctxs = .ok out := by
+  unfold expandEdge at h ⊢
+  cases hf : comp.vertex? e.fromVid with
+  | none => simp [hf] at h
+  | some fromV =>
+    cases htv : comp.vertex? e.toVid with
+    | none => simp [hf, htv] at h
+    | some toV =>
+      simp only [hf, htv, hrec, expandRecursive] at h ⊢
+      obtain ⟨mid, hmid, h⟩ := R_bind_ok h
+      obtain ⟨init, hinit, hmid⟩ := R_bind_ok hmid
+      obtain ⟨htoV, hvid⟩ := vertex?_spec htv
+      have hloc : locate ir e.toVid = some (comp, toV) := by
+        rw [← hvid]; exact locate_of_distinct hyp.vids hc htoV
+      have hdest := destinationOf_edge hyp.eids hc he
+      rw [hinit, enterVertex_envS]
+      simp only [R.bind_ok]
+      -- both pipelines after `recInit` are homomorphisms: compare them context by context
+      let S := fun l => (recFinish (Env.ofData D args) e r fromV toV l).bind (enterVertex (Env.ofData D args) comp toV)
+      let S' := fun l => (recFinish (envS ir args D) e r fromV toV l).bind (enterVertex (Env.ofData D args) comp toV)
+      have hS : Hom S := Hom.bind (recFinish_hom _ e r fromV toV) (enterVertex_hom _ comp toV)
+      have hS' : Hom S' := Hom.bind (recFinish_hom _ e r fromV toV) (enterVertex_hom _ comp toV)
+      have hSinit : S init = .ok out := by show (recFinish _ e r fromV toV init).bind _ = _; rw [hmid]; exact h
+      show S' init = .ok out
+      apply Hom.pointwise_ok hS hS' init out hSinit
+      · intro c _ o ho
+        show (recFinish _ e r fromV toV [c]).bind _ = _
+        have ho' : (recFinish (Env.ofData D args) e r fromV toV [c]).bind (enterVertex (Env.ofData D args) comp toV) = .ok o := ho
+        rw [recFinish_single _ e r fromV toV c hdepth] at ho' ⊢
+        rw [envS_nbrs hyp.total e.eid _ hdest (by simp [VInfo.ofEdge, hloc])]
+        rw [ofData_nbrs] at ho'
+        simp only [R.bind_ok] at ho' ⊢
+        cases hca : c.active with
+        | none =>
+          rw [hca] at ho'
+          simpa [Data.nbrsOpt] using ho'
+        | some v =>
+          rw [hca] at ho'
+          rw [recStep c v hca] at ho' ⊢
+          simp only [R.bind_ok] at ho' ⊢
+          obtain ⟨a, b, ha, hb, hab⟩ := (enterVertex_hom _ comp toV).split_ok
+            (xs := [c]) (ys := (D.nbrsOpt (some v) e.name e.params).map fun m => c.splitTo (some m))
+            (by simpa using ho')
+          have hb' := (enterVertex_hom (Env.ofData D args) comp toV).filter_ok
+            (keepCtx ir args D (VInfo.ofEdge e)) _ b hb (by
+              intro x hx hk o2 ho2
+              simp only [List.mem_map] at hx
+              obtain ⟨n, hn, rfl⟩ := hx
+              have hkb : keepB ir args D (VInfo.ofEdge e) n = false := hk
+              have hp : passesStatic ir args D (VInfo.ofEdge e) n = .ok false := by
+                rw [passes_eq_keepB hyp.total _ n (by simp [VInfo.ofEdge, hloc]), hkb]
+              exact enterVertex_dropped ir D args (VInfo.ofEdge e) comp comp toV _ n o2 hloc hp
+                (hyp.nnEdge comp hc e he toV htv v n hn) rfl ho2)
+          rw [map_split_filter] at hb'
+          have := (enterVertex_hom (Env.ofData D args) comp toV).join_ok ha hb'
+          simpa [hab] using this
+      · intro o ho
+        have : recFinish (envS ir args D) e r fromV toV [] = recFinish (Env.ofData D args) e r fromV toV [] := by
+          simp [recFinish, recExpandLevel, flatMapR, hdepth, recLevels]
+        show (recFinish _ e r fromV toV []).bind _ = _
+        rw [this]; exact ho
+end recursive
+
+
+
+section folds
+variable {ir : IRQuery} {args : List (Name × Value)} {D : Data}
+
+/-- Edges whose destination hints are non-binding (`@optional`, `@recurse(depth ≥ 2)`): the pruning
+adapter answers exactly like the plain one. -/
+theorem expandEdge_nonbinding_pruned (hyp : PruneHyp ir args D) (comp : Component)
+    (hc : comp ∈ subComps ir.rootComponent) (e : IREdge) (he : e ∈ comp.edges)
+    (hnb : (VInfo.ofEdge e).nonBinding = true) (ctxs : List Ctx) :
+    expandEdge (envS ir args D) comp e ctxs = expandEdge (Env.ofData D args) comp e ctxs := by
+  cases htv : comp.vertex? e.toVid with
+  | none =>
+    unfold expandEdge
+    cases comp.vertex? e.fromVid <;> simp [htv]
+  | some toV =>
+    obtain ⟨htoV, hvid⟩ := vertex?_spec htv
+    have hloc : locate ir e.toVid = some (comp, toV) := by
+      rw [← hvid]; exact locate_of_distinct hyp.vids hc htoV
+    apply expandEdge_agree (envS_agree ir args D) comp e _ ctxs (fun _ _ _ _ => rfl)
+    intro t v
+    rw [envS_nbrs hyp.total e.eid _ (destinationOf_edge hyp.eids hc he) (by simp [VInfo.ofEdge, hloc]),
+      ofData_nbrs]
+    congr 1
+    exact List.filter_eq_self.mpr (fun n _ => keepB_nonBinding ir args D _ n hnb)
+
+theorem filterMapR_sub {α β : Type} {f f' : α → R (Option β)} {l : List α} {out : List β}
+    (h : ∀ c ∈ l, ∀ o, f c = .ok o → f' c = .ok o) (ho : filterMapR f l = .ok out) :
+    filterMapR f' l = .ok out := by
+  induction l generalizing out with
+  | nil => exact ho
+  | cons x xs ih =>
+    simp only [filterMapR] at ho ⊢
+    cases hx : f x with
+    | ok y =>
+      rw [hx] at ho
+      cases hxs : filterMapR f xs with
+      | ok ys =>
+        rw [hxs] at ho
+        simp only [h x (by simp) y hx, ih (fun c hc => h c (by simp [hc])) hxs]
+        exact ho
+      | panic s => rw [hxs] at ho; simp at ho
+      | fuel => rw [hxs] at ho; simp at ho
+    | panic s => rw [hx] at ho; simp at ho
+    | fuel => rw [hx] at ho; simp at ho
+
+theorem foldStart_filter (ir : IRQuery) (args : List (Name × Value)) (D : Data) (i : VInfo) (c : Ctx)
+    (ns : List VertexId) :
+    (foldStart c ns).filter (keepCtx ir args D i) = foldStart c (ns.filter (keepB ir args D i)) := by
+  unfold foldStart
+  induction ns with
+  | nil => rfl
+  | cons n ns ih =>
+    simp only [List.map_cons, List.filter_cons, ih]
+    have : keepCtx ir args D i { Ctx.new (some n) with importedTags := c.importedTags } = keepB ir args D i n := rfl
+    rw [this]
+    cases keepB ir args D i n <;> rfl
+
+/-- A start context of a component whose vertex the hints reject yields nothing. -/
+theorem computeComponent_dropped (hyp : PruneHyp ir args D) (fuel : Nat) (comp : Component)
+    (hc : comp ∈ subComps ir.rootComponent) (i : VInfo) (hi : i.vid = comp.root) (x : Ctx) (n : VertexId)
+    (hx : x.active = some n) (hp : passesStatic ir args D i n = .ok false)
+    (hnn : ∀ v, comp.vertex? comp.root = some v → NonNullOk D v n) (o : List Ctx)
+    (h : computeComponent (Env.ofData D args) fuel comp [x] = .ok o) : o = [] := by
+  cases fuel with
+  | zero => rw [computeComponent.eq_1] at h; cases h
+  | succ fuel =>
+    rw [computeComponent.eq_2] at h
+    cases hr : comp.vertex? comp.root with
+    | none => simp [hr] at h
+    | some rootV =>
+      simp only [hr] at h
+      obtain ⟨o1, ho1, h⟩ := R_bind_ok h
+      obtain ⟨st, _, h⟩ := R_bind_ok h
+      obtain ⟨hrv, hvid⟩ := vertex?_spec hr
+      have hloc : locate ir i.vid = some (comp, rootV) := by
+        rw [hi, ← hvid]; exact locate_of_distinct hyp.vids hc hrv
+      have : o1 = [] := enterVertex_dropped ir D args i comp comp rootV x n o1 hloc hp (hnn rootV hr) hx ho1
+      subst this
+      exact (runStages_hom _ fuel comp st _).nil_ok h
+
+/-- The fold stage, given the claim for the fold's component. -/
+theorem computeFold_pruned (hyp : PruneHyp ir args D) (fuel : Nat) (parent : Component)
+    (hc : parent ∈ subComps ir.rootComponent) (fold : Fold) (hf : fold ∈ parent.folds)
+    (ih : ∀ ctxs out, computeComponent (Env.ofData D args) fuel fold.component ctxs = .ok out →
+      computeComponent (envS ir args D) fuel fold.component ctxs = .ok out)
+    (ctxs out : List Ctx)
+    (h : computeFold (Env.ofData D args) fuel parent fold ctxs = .ok out) :
+    computeFold (envS ir args D) fuel parent fold ctxs = .ok out := by
+  rw [computeFold.eq_1] at h ⊢
+  cases hfv : parent.vertex? fold.fromVid with
+  | none => simp [hfv] at h
+  | some fromV =>
+    simp only [hfv] at h ⊢
+    have hA := envS_agree ir args D
+    have h1 : importTags (envS ir args D) parent fold.imports = importTags (Env.ofData D args) parent fold.imports :=
+      funext fun c => importTags_agree hA parent fold.imports c (fun _ _ => rfl)
+    rw [h1, foldLimits_agree hA]
+    obtain ⟨c1, hc1, h⟩ := R_bind_ok h
+    obtain ⟨c2, hc2, h⟩ := R_bind_ok h
+    obtain ⟨lim, hlim, h⟩ := R_bind_ok h
+    simp only [hc1, hc2, hlim, R.bind_ok]
+    refine filterMapR_sub ?_ h
+    intro c _ o ho
+    rw [foldOne.eq_1] at ho ⊢
+    have hfc : fold.component ∈ subComps ir.rootComponent :=
+      subComps_trans hc (subComps_of_fold hf (mem_subComps_self _))
+    rw [ofData_nbrs] at ho
+    simp only [R.bind_ok] at ho
+    obtain ⟨computed, hcomp, ho⟩ := R_bind_ok ho
+    have hroot := hyp.foldRoots parent hc fold hf
+    -- the hint object of the fold's resolution point describes the root of the fold's component
+    cases hrv : fold.component.vertex? fold.component.root with
+    | none =>
+      -- the plain run of the component panics at once
+      cases fuel with
+      | zero => rw [computeComponent.eq_1] at hcomp; cases hcomp
+      | succ fuel => rw [computeComponent.eq_2] at hcomp; simp [hrv] at hcomp
+    | some rootV =>
+      obtain ⟨hrvm, hvid⟩ := vertex?_spec hrv
+      have hloc : locate ir fold.toVid = some (fold.component, rootV) := by
+        rw [hroot, ← hvid]; exact locate_of_distinct hyp.vids hfc hrvm
+      rw [envS_nbrs hyp.total fold.eid _ (destinationOf_fold hyp.eids hc hf) (by simp [VInfo.ofFold, hloc])]
+      simp only [R.bind_ok]
+      have hfilt := (computeComponent_hom (Env.ofData D args) fuel fold.component).filter_ok
+        (keepCtx ir args D (VInfo.ofFold fold)) _ computed hcomp (by
+          intro x hx hk o2 ho2
+          simp only [foldStart, List.mem_map] at hx
+          obtain ⟨n, hn, rfl⟩ := hx
+          have hkb : keepB ir args D (VInfo.ofFold fold) n = false := hk
+          have hp : passesStatic ir args D (VInfo.ofFold fold) n = .ok false := by
+            rw [passes_eq_keepB hyp.total _ n (by simp [VInfo.ofFold, hloc]), hkb]
+          obtain ⟨y, hy⟩ := mem_nbrsOpt hn
+          exact computeComponent_dropped hyp fuel fold.component hfc (VInfo.ofFold fold) hroot _ n rfl hp
+            (fun v hv => hyp.nnFold parent hc fold hf v hv y n hy) o2 ho2)
+      rw [foldStart_filter] at hfilt
+      rw [ih _ _ hfilt]
+      simp only [R.bind_ok]
+      rw [foldFinish_agree hA parent fold lim c computed (fun _ _ => rfl)]
+      exact ho
+end folds
+
+
+
+theorem mergeStages_edges (es : List IREdge) (fs : List Fold) (n : Nat) (st : List Stage)
+    (h : mergeStages es fs n = .ok st) : ∀ e, Stage.edge e ∈ st → e ∈ es := by
+  induction n generalizing es fs st with
+  | zero =>
+    cases es with
+    | nil => simp only [mergeStages] at h; cases h; intro e he; simp at he
+    | cons e es =>
+      cases fs with
+      | nil => simp only [mergeStages] at h; cases h; intro g hg; simpa using hg
+      | cons f fs => simp [mergeStages] at h
+  | succ n ih =>
+    cases es with
+    | nil => simp only [mergeStages] at h; cases h; intro e he; simp at he
+    | cons e es =>
+      cases fs with
+      | nil => simp only [mergeStages] at h; cases h; intro g hg; simpa using hg
+      | cons f fs =>
+        simp only [mergeStages] at h
+        split at h
+        · cases hm : mergeStages es (f :: fs) n with
+          | ok st' =>
+            rw [hm] at h; simp only [R.map] at h; cases h
+            intro g hg
+            simp only [List.mem_cons, Stage.edge.injEq] at hg
+            rcases hg with hg | hg
+            · subst hg; simp
+            · exact List.mem_cons_of_mem _ (ih es (f :: fs) st' hm g hg)
+          | panic s => rw [hm] at h; simp [R.map] at h
+          | fuel => rw [hm] at h; simp [R.map] at h
+        · split at h
+          · cases hm : mergeStages (e :: es) fs n with
+            | ok st' =>
+              rw [hm] at h; simp only [R.map] at h; cases h
+              intro g hg
+              simp only [List.mem_cons, reduceCtorEq, false_or] at hg
+              exact ih (e :: es) fs st' hm g hg
+            | panic s => rw [hm] at h; simp [R.map] at h
+            | fuel => rw [hm] at h; simp [R.map] at h
+          · simp at h
+
+section main
+variable {ir : IRQuery} {args : List (Name × Value)} {D : Data}
+
+theorem expandEdge_pruned (hyp : PruneHyp ir args D) (comp : Component)
+    (hc : comp ∈ subComps ir.rootComponent) (e : IREdge) (he : e ∈ comp.edges) (ctxs out : List Ctx)
+    (h : expandEdge (Env.ofData D args) comp e ctxs = .ok out) :
+    expandEdge (envS ir args D) comp e ctxs = .ok out := by
+  cases hnb : (VInfo.ofEdge e).nonBinding with
+  | true => rw [expandEdge_nonbinding_pruned hyp comp hc e he hnb]; exact h
+  | false =>
+    cases hrec : e.recursive with
+    | none => exact expandEdge_nonrec_pruned hyp comp hc e he hrec ctxs out h
+    | some r =>
+      have hd : r.depth - 1 = 0 := by
+        simp only [VInfo.ofEdge, VInfo.nonBinding, locallyNonBindingEdge, hrec, Bool.false_eq_true,
+          ↓reduceIte, Bool.or_eq_false_iff, decide_eq_false_iff_not] at hnb
+        omega
+      exact expandEdge_rec_pruned hyp comp hc e he r hrec hd ctxs out h
+
+theorem runStages_pruned (hyp : PruneHyp ir args D) (fuel : Nat) (comp : Component)
+    (hc : comp ∈ subComps ir.rootComponent)
+    (ih : ∀ f ∈ comp.folds, ∀ ctxs out, computeComponent (Env.ofData D args) fuel f.component ctxs = .ok out →
+      computeComponent (envS ir args D) fuel f.component ctxs = .ok out)
+    (stages : List Stage) (hse : ∀ e, Stage.edge e ∈ stages → e ∈ comp.edges)
+    (hsf : ∀ f, Stage.fold f ∈ stages → f ∈ comp.folds)
+    (visited : List Vid) (ctxs out : List Ctx)
+    (h : runStages (Env.ofData D args) fuel comp stages visited ctxs = .ok out) :
+    runStages (envS ir args D) fuel comp stages visited ctxs = .ok out := by
+  induction stages generalizing visited ctxs with
+  | nil => rw [runStages.eq_1] at h ⊢; exact h
+  | cons st rest ihs =>
+    have hre : ∀ e, Stage.edge e ∈ rest → e ∈ comp.edges := fun e he => hse e (List.mem_cons_of_mem _ he)
+    have hrf : ∀ f, Stage.fold f ∈ rest → f ∈ comp.folds := fun f hf => hsf f (List.mem_cons_of_mem _ hf)
+    cases st with
+    | edge e =>
+      rw [runStages.eq_2] at h ⊢
+      obtain ⟨v', hv', h⟩ := R_bind_ok h
+      obtain ⟨c', hc', h⟩ := R_bind_ok h
+      rw [hv', expandEdge_pruned hyp comp hc e (hse e (by simp)) ctxs c' hc']
+      exact ihs hre hrf v' c' h
+    | fold f =>
+      rw [runStages.eq_3] at h ⊢
+      obtain ⟨v', hv', h⟩ := R_bind_ok h
+      obtain ⟨c', hc', h⟩ := R_bind_ok h
+      have hf : f ∈ comp.folds := hsf f (by simp)
+      rw [hv', computeFold_pruned hyp fuel comp hc f hf (ih f hf) ctxs c' hc']
+      exact ihs hre hrf v' c' h
+
+theorem computeComponent_pruned (hyp : PruneHyp ir args D) (fuel : Nat) (comp : Component)
+    (hc : comp ∈ subComps ir.rootComponent) (ctxs out : List Ctx)
+    (h : computeComponent (Env.ofData D args) fuel comp ctxs = .ok out) :
+    computeComponent (envS ir args D) fuel comp ctxs = .ok out := by
+  induction fuel generalizing comp ctxs out with
+  | zero => rw [computeComponent.eq_1] at h; cases h
+  | succ fuel ih =>
+    rw [computeComponent.eq_2] at h ⊢
+    cases hr : comp.vertex? comp.root with
+    | none => simp [hr] at h
+    | some rootV =>
+      simp only [hr] at h ⊢
+      rw [enterVertex_envS]
+      obtain ⟨c1, hc1, h⟩ := R_bind_ok h
+      obtain ⟨st, hst, h⟩ := R_bind_ok h
+      rw [hc1, hst]
+      simp only [R.bind_ok]
+      exact runStages_pruned hyp fuel comp hc
+        (fun f hf ctxs out => ih f.component (subComps_trans hc (subComps_of_fold hf (mem_subComps_self _))) ctxs out)
+        st (mergeStages_edges _ _ _ _ hst) (mergeStages_folds _ _ _ _ hst) _ c1 out h
+
+/-- **Pruning with the static hints of every resolution point never changes the rows.** -/
+theorem interpret_pruned (hyp : PruneHyp ir args D) (rows : List Row)
+    (h : interpret (Env.ofData D args) ir = .ok rows) :
+    interpret (envS ir args D) ir = .ok rows := by
+  unfold interpret at h ⊢
+  obtain ⟨starts, hs, h⟩ := R_bind_ok h
+  have hs' : starts = D.start ir.rootName ir.rootParams := by
+    simpa [Env.ofData, Data.adapter] using hs.symm
+  unfold interpretFrom at h
+  obtain ⟨out, hout, h⟩ := R_bind_ok h
+  cases hr : ir.rootComponent.vertex? ir.rootComponent.root with
+  | none => simp [fuelFor, computeComponent.eq_2, hr] at hout
+  | some rootV =>
+    obtain ⟨hrvm, hvid⟩ := vertex?_spec hr
+    have hroot := mem_subComps_self ir.rootComponent
+    have hloc : locate ir ir.rootComponent.root = some (ir.rootComponent, rootV) := by
+      rw [← hvid]; exact locate_of_distinct hyp.vids hroot hrvm
+    let i := VInfo.resolve ir.rootComponent.root false
+    have hstart : (envS ir args D).adapter.start ir.rootName ir.rootParams ir.rootComponent.root =
+        .ok (starts.filter (keepB ir args D i)) := by
+      simp only [envS, pruneStaticAdapter, hs']
+      exact filterR_ok (fun x _ => passes_eq_keepB hyp.total i x (by simp [i, VInfo.resolve, hloc]))
+    rw [hstart]
+    simp only [R.bind_ok]
+    unfold interpretFrom
+    have hmap : ∀ l : List VertexId, (l.filter (keepB ir args D i)).map (fun v => Ctx.new (some v)) =
+        (l.map fun v => Ctx.new (some v)).filter (keepCtx ir args D i) := by
+      intro l
+      induction l with
+      | nil => rfl
+      | cons n ns ih =>
+        simp only [List.map_cons, List.filter_cons]
+        have : keepCtx ir args D i (Ctx.new (some n)) = keepB ir args D i n := rfl
+        rw [this]
+        cases keepB ir args D i n
+        · simpa using ih
+        · simpa using ih
+    rw [hmap]
+    have hfilt := (computeComponent_hom (Env.ofData D args) (fuelFor ir) ir.rootComponent).filter_ok
+      (keepCtx ir args D i) _ out hout (by
+        intro x hx hk o2 ho2
+        simp only [List.mem_map] at hx
+        obtain ⟨n, hn, rfl⟩ := hx
+        have hkb : keepB ir args D i n = false := hk
+        have hp : passesStatic ir args D i n = .ok false := by
+          rw [passes_eq_keepB hyp.total i n (by simp [i, VInfo.resolve, hloc]), hkb]
+        exact computeComponent_dropped hyp (fuelFor ir) ir.rootComponent hroot i rfl _ n rfl hp
+          (fun v hv => hyp.nnStart v hv n (hs' ▸ hn)) o2 ho2)
+    rw [computeComponent_pruned hyp _ _ hroot _ out hfilt]
+    simp only [R.bind_ok]
+    have hcr : constructRow (envS ir args D) ir.rootComponent = constructRow (Env.ofData D args) ir.rootComponent :=
+      funext fun c => constructRow_agree (envS_agree ir args D) ir.rootComponent c (fun _ _ => rfl)
+    rw [hcr]; exact h
+end main
+
+
+/-! ### the hypotheses are satisfiable (and the hints of the example do prune) -/
+
+
+def nvIR : IRQuery :=
+  ⟨"RA", [], [("v", ⟨"Int", [false]⟩)], .mk 1
+    [⟨1, "A", none, [⟨.bin .lessThan, .loc "x" ⟨"Int", [true]⟩, some (.var "v" ⟨"Int", [false]⟩)⟩]⟩,
+     ⟨2, "B", none, [⟨.bin .equals, .loc "y" ⟨"Int", [true]⟩, some (.var "v" ⟨"Int", [false]⟩)⟩]⟩]
+    [⟨1, 1, 2, "e", [], false, none⟩] [] [⟨"o", 1, "x", ⟨"Int", [true]⟩⟩]⟩
+def nvArgs : List (Name × Value) := [("v", .int64 5)]
+def nvData : Data :=
+  { vertices := [⟨0, "A", [("x", .int64 1)]⟩, ⟨1, "A", [("x", .int64 9)]⟩, ⟨2, "B", [("y", .int64 5)]⟩],
+    adj := [⟨0, "e", [], [2]⟩, ⟨1, "e", [], [2]⟩], starts := [⟨"RA", [], [0, 1]⟩], rx := [], sub := [] }
+
+theorem nv_total : HintsTotal nvIR nvArgs nvData := by
+  intro i x hl
+  unfold passesStatic
+  cases hloc : locate nvIR i.vid with
+  | none => simp [hloc] at hl
+  | some cv =>
+    obtain ⟨c, v⟩ := cv
+    simp only
+    -- the located vertex is one of the two vertices of the query
+    have hv : v = ⟨1, "A", none, [⟨.bin .lessThan, .loc "x" ⟨"Int", [true]⟩, some (.var "v" ⟨"Int", [false]⟩)⟩]⟩ ∨
+        v = ⟨2, "B", none, [⟨.bin .equals, .loc "y" ⟨"Int", [true]⟩, some (.var "v" ⟨"Int", [false]⟩)⟩]⟩ := by
+      simp only [locate, nvIR, subComps, subCompsF, locateIn, Component.vertex?, Component.vertices,
+        List.find?_cons, List.find?_nil] at hloc
+      split at hloc
+      · rename_i v' hv'
+        cases hloc
+        split at hv'
+        · left; cases hv'; rfl
+        · split at hv'
+          · right; cases hv'; rfl
+          · cases hv'
+      · cases hloc
+    cases hnb : i.nonBinding <;> rcases hv with rfl | rfl <;>
+      simp [filterSubjects, dedupNames, filterSubject, allR, staticallyRequired, hnb, filtersOn, isStaticOperand,
+        staticCandidateOf, mapR, staticPiece, lookupArg, nvArgs, candidateOfStatic, rangeWithEnd, rangeNew,
+        Range.new, Bound.isNullBound, Cand.isNull, R.map, R.bind, StaticPiece.cand?, StaticPiece.post?,
+        subjectNullable, initialCandidate, Candidate.intersect, Candidate.intersectArm, Candidate.normalize,
+        Range.nullOnly, Range.degenerate, Bound.beq, Range.beq, Range.full]
+
+theorem nv_subComps : subComps nvIR.rootComponent = [nvIR.rootComponent] := rfl
+
+theorem nv_hyp : PruneHyp nvIR nvArgs nvData where
+  vids := by decide
+  eids := by decide
+  foldRoots := by
+    intro c hc f hf
+    rw [nv_subComps] at hc; simp only [List.mem_singleton] at hc; subst hc
+    simp [nvIR, Component.folds] at hf
+  total := nv_total
+  nnStart := by
+    intro v hv x _ f hf p _ hn
+    simp only [nvIR, Component.vertex?, Component.vertices, Component.root, List.find?_cons] at hv
+    simp at hv; subst hv
+    simp at hf; subst hf
+    simp [subjectNullable] at hn
+  nnEdge := by
+    intro c hc e he v hv y x _ f hf p _ hn
+    rw [nv_subComps] at hc; simp only [List.mem_singleton] at hc; subst hc
+    simp [nvIR, Component.edges] at he; subst he
+    simp only [nvIR, Component.vertex?, Component.vertices, List.find?_cons] at hv
+    simp at hv; subst hv
+    simp at hf; subst hf
+    simp [subjectNullable] at hn
+  nnFold := by
+    intro c hc f hf
+    rw [nv_subComps] at hc; simp only [List.mem_singleton] at hc; subst hc
+    simp [nvIR, Component.folds] at hf
+
+/-- the hints of this query do prune: the starting vertex with `x = 9` is dropped at the root -/
+example : keepB nvIR nvArgs nvData (VInfo.resolve 1 false) 1 = false ∧
+    keepB nvIR nvArgs nvData (VInfo.resolve 1 false) 0 = true := by decide
+
 end TF.Engine
